@@ -72,6 +72,8 @@ class C07(CompSpec):
                 for j in scen["jobs"]:
                     j["group"] = scen["groups"][0]["name"]
                 scen["groups"][0]["time_based"] = False
+            if k % 4 == 0:
+                scenario.to_cli_mode(scen)  # limits and run options given as options of submit-jobs
             t = sim_task(scen, s, len(out))
             if k % 2:
                 scen["resubmit"] = {"rounds": [{"failed": True, "missing": True, "successful": rng.random() < 0.3}]}
